@@ -65,24 +65,25 @@ struct Gen
 
     // ops that give the engine a small well-formed book holding a few legal moves of the current position
     // (returns the recorded moves); the book file layer is the C19 one, without faults
-    std::vector<ref::RMove> load_book_for_current(bool best_policy)
+    std::vector<ref::RMove> load_book_for_current(bool best_policy, bool wide = false)
     {
         ref::Board b = pos.game.cur;
         auto ms = b.legal();
         std::vector<ref::RMove> rec;
         if (ms.empty()) return rec;
-        int n = int(r.range(1, 3));
+        int n = wide ? int(r.range(17, 48)) : int(r.range(1, 3));
+        int tie = int(r.range(1, 50));
         std::string spec;
         for (int i = 0; i < n; ++i)
         {
-            ref::RMove m = ms[r.below(ms.size())];
+            ref::RMove m = wide && size_t(i) < ms.size() ? ms[size_t(i)] : ms[r.below(ms.size())];
             rec.push_back(m);
             int from = m.from, to = m.to;
             if (ref::kind_of(b.sq[m.from]) == ref::KIND_K && std::abs(ref::file_of(m.to) - ref::file_of(m.from)) == 2)
                 to = ref::sq_of(ref::file_of(m.to) == 6 ? 7 : 0, ref::rank_of(m.from));
             int promo = m.promo ? m.promo - 1 : 0;
             int code = promo << 12 | ref::rank_of(from) << 9 | ref::file_of(from) << 6 | ref::rank_of(to) << 3 | ref::file_of(to);
-            spec += "F|" + b.fen() + "|" + std::to_string(code) + "|" + std::to_string(r.range(1, 50)) + ";";
+            spec += "F|" + b.fen() + "|" + std::to_string(code) + "|" + std::to_string(wide && r.chance(0.9) ? tie : r.range(1, 50)) + ";";
         }
         s.ops.push_back(simple(OP_AWAIT_IDLE));
         s.ops.push_back(simple(OP_CHECK, "bookfile 0 0 -1 " + spec));
@@ -121,6 +122,14 @@ struct Gen
         if (k < 30) g += " depth " + std::to_string(r.range(1, max_depth));
         else if (k < 40)
         {
+            if (r.chance(0.3))
+            {
+                // the node limit is the only limit that can end this search in reasonable time
+                g += " nodes " + std::to_string(r.logrange(200, 5000));
+                uint64_t w = r.below(3);
+                g += w == 0 ? " depth 40" : (w == 1 ? " infinite" : " movetime 10000000");
+                return g;
+            }
             g += " nodes " + std::to_string(r.logrange(1, 20000));
             if (r.chance(0.5)) g += " depth " + std::to_string(r.range(1, max_depth));
             else g += " movetime " + std::to_string(std::max<int64_t>(1, tmax_ms));
@@ -232,6 +241,15 @@ struct Gen
                 x.k = r.logrange(1, horizon);
             }
             x.a = r.logrange(1, 5000000);  // microseconds
+            f.push_back(x);
+        }
+        if (r.chance(0.12))
+        {
+            // the wall clock is stepped while the search runs; the engine's deadlines must not care
+            Fault x;
+            x.kind = F_WALL_JUMP;
+            x.k = r.logrange(1, horizon);
+            x.a = r.logrange(1000, 7200000000LL) * (r.chance(0.7) ? -1 : 1);
             f.push_back(x);
         }
         if (poison)
@@ -577,6 +595,14 @@ Script gen_c09(uint64_t seed, const std::string& tier, Rng& r)
             p.game = ref::Game(ref::Board(p.start_fen));
             g.set_position(p);
             have_pos = true;
+            if (r.chance(0.3))
+            {
+                // the engine's inspection commands earlier in the session (they print through the same stream)
+                static const char* insp[] = {"printboard", "hash", "staticeval", "perft 1", "hash"};
+                s.ops.push_back(simple(OP_AWAIT_IDLE));
+                s.ops.push_back(send(insp[r.below(5)]));
+                s.ops.push_back(simple(OP_AWAIT_IDLE));
+            }
             static const int ds[] = {39, 40, 41, 42, 60, 100, 1000};
             s.ops.push_back(send("go depth " + std::to_string(ds[r.below(7)])));
             s.ops.push_back(simple(OP_AWAIT_BEST));
@@ -1055,6 +1081,23 @@ Script gen_c10(uint64_t seed, const std::string& tier, Rng& r)
     if (r.chance(0.05))
     {
         exit_during_search(s, g, r);
+        return s;
+    }
+    if (r.chance(0.05))
+    {
+        // a book whose key holds many records, most of them with the same weight
+        int n = int(r.range(1, 3));
+        for (int i = 0; i < n; ++i)
+        {
+            g.set_position(gen_position(r, 40, 0));
+            g.load_book_for_current(r.chance(0.5), true);
+            int gos = int(r.range(1, 3));
+            for (int k = 0; k < gos; ++k)
+            {
+                s.ops.push_back(send("go depth " + std::to_string(r.range(1, 3))));
+                s.ops.push_back(simple(OP_AWAIT_BEST));
+            }
+        }
         return s;
     }
     uint64_t shape = r.below(100);
